@@ -36,7 +36,7 @@ Final == <<SPrint(Nn), SPrint(Xs), SPrint(EProp(Ob, KA)), SPrint(EProp(Ob, KB)),
 Payloads == {"declare", "assign", "opassign", "listdestruct", "objdestruct", "idxassign", "propassign",
              "rangeassign", "print", "interp", "spreadcall", "closure", "method", "typefn", "concat",
              "compare", "rangeidx", "newkey", "strops", "break", "continue", "return", "error",
-             "nestinterp", "rebind", "loopmutate", "sloterror", "slotcallerror", "cmplen", "bytelen"}
+             "nestinterp", "rebind", "loopmutate", "sloterror", "slotcallerror", "cmplen", "bytelen", "dupbinding"}
 Payload(p) ==
     CASE p = "declare"  -> <<SDecl(Tmp(1), EBin("+", Nn, I(10))), SPrint(Tmp(1))>>
       [] p = "assign"   -> <<SAssign(Nn, EBin("*", Nn, I(2))), SPrint(Nn)>>
@@ -89,7 +89,13 @@ Payload(p) ==
       \* lists of different lengths are unequal whatever they hold; a piece of a character has no ->len
       [] p = "cmplen"      -> <<SPrint(EBin("==", EList(<<I(1), Sv>>), EList(<<Sv>>))),
                                 SPrint(EBin("!=", EBin("+", Xs, EList(<<Sv>>)), EList(<<Sv, I(2)>>))),
-                                SPrint(EBin("==", EList(<<EList(<<I(1), Sv>>)>>), EList(<<EList(<<Sv>>)>>)))>>
+                                SPrint(EBin("==", EList(<<EList(<<I(1), Sv>>)>>), EList(<<EList(<<Sv>>)>>))),
+                                \* the same object (it holds a function) inside two lists: equal, being the same
+                                SPrint(EBin("==", EList(<<Ob>>), EList(<<Ob>>))),
+                                SPrint(EBin("!=", EObj(<<Pair(EStr(KA), Ob)>>), EObj(<<Pair(EStr(KA), Ob)>>)))>>
+      \* one name bound twice by one pattern (as an entry and as the rest) is refused
+      [] p = "dupbinding"  -> <<SDecl(Tmp(1), I(0)), SPrint(I(79)),
+                                SAssign(EObj(<<Pair(EStr(KA), Tmp(1)), Pair(EStr(KB), Tmp(2)), PCollect(Tmp(1))>>), Ob), SPrint(Tmp(1))>>
       [] p = "bytelen"     -> <<SPrint(ECall(ETProp(ERIndex(Sv, ENone, I(1)), N_len), <<>>)),
                                 SDecl(Tmp(1), ETProp(ERIndex(Sv, I(1), I(2)), N_len)), SPrint(I(78)), SPrint(ECall(Tmp(1), <<>>))>>
       \* a variable that held a method read from one object is assigned the method read from another
@@ -192,6 +198,8 @@ Orders == [
                         SPrint(EObj(<<Pair(EStr(KA), ECall(Nm(<<110, 110>>), <<>>)), Pair(EStr(KB), ECall(Nm(<<110, 110>>), <<>>))>>)),
                         SFor(Tmp(2), EList(<<I(1), I(2)>>), <<SPrint(EIStr(<<Lit(<<>>), SlotP(0, ECall(ETProp(ECall(Nm(<<110, 110>>), <<>>), N_type), <<>>)), Lit(<<>>)>>))>>),
                         SPrint(Tmp(1))>>,
+  interpbad  |-> <<SPrint(EIStr(<<Lit(<<60>>), SlotP(0, T(1, EStr(<<97>>))), Lit(<<45>>), SlotP(0, T(2, I(5))), Lit(<<45>>),
+                                  SlotP(0, T(3, EStr(<<98>>))), Lit(<<62>>)>>))>>,
   \* a later item changes a list that an earlier item spread (read at its own turn)
   spreadeffects |-> <<SDecl(Tmp(1), EList(<<I(1), I(2), I(3)>>)),
                       SFn(<<98, 117>>, <<>>, FALSE, <<SOpAssign(EIndex(Tmp(1), I(0)), "+", I(100)), SReturn(EIndex(Tmp(1), I(0)))>>),
@@ -227,11 +235,13 @@ C01ParamsQuick ==
 C01ParamsTiny ==
     { <<"d2", k1, k2, "-", p>> :
         k1 \in {"seq", "if", "forobject", "anonfn"}, k2 \in {"block", "while", "method"}, p \in Payloads }
+CorePayloads == {"declare", "opassign", "listdestruct", "print", "closure", "method", "break", "return", "error", "rebind"}
 C01ParamsThorough ==
     C01Params \cup { <<"order", kx, "-", "-", o>> : kx \in Constructs, o \in DOMAIN Orders }
+    \* (depth 3 and payload pairs over a core of the payloads: the full products do not finish in the time a run has)
     \cup { <<"d3", k1, k2, k3, p>> :
-             k1 \in Constructs \ {"seq"}, k2 \in Constructs \ {"seq"}, k3 \in Constructs \ {"seq", "else"}, p \in Payloads }
-    \cup { <<"pp", k1, p1, "-", p2>> : k1 \in Constructs, p1 \in Payloads, p2 \in Payloads }
+             k1 \in Constructs \ {"seq"}, k2 \in Constructs \ {"seq"}, k3 \in Constructs \ {"seq", "else"}, p \in CorePayloads }
+    \cup { <<"pp", k1, p1, "-", p2>> : k1 \in Constructs, p1 \in Payloads, p2 \in CorePayloads }
 
 C01ProgOf(p) ==
     CASE p[1] = "d2" -> Env \o <<P(1)>> \o Wrap(p[2], 1, <<P(2)>> \o Wrap(p[3], 2, Payload(p[5])) \o <<P(3)>>)
